@@ -142,3 +142,13 @@ PROPS.update({
         "exhaustive": False,
     },
 })
+
+PROPS.update({
+    "C07": {
+        "custom": "c07",
+        "level": "exploration",
+        "rule": "seeded graphs with n in 21..80 (thorough: ..150), directed/undirected, multi-edge and self-loop kinds, generic non-dyadic weights (so that an order-dependent float reduction changes low bits), unweighted and exact weights. Reference = all_pairs (4 option variants incl. target and cutoff), multi_source (2), get_all_shortest_paths_involving, betweenness (raw, normalized), closeness (plain, wf) inside a 1-thread pool (the code's own serial branch). Candidates = caller-installed pools of {2,3,4,8,16} (thorough: 1..=16) threads x 4 (12) repetitions with seeded 0-700us delays injected by the verif-hooks par_item hook at the start of every work item, the global pool, a call from inside the caller's own par_iter, and 6 scoped threads reading the same &Graph concurrently; every distance bit pattern, sorted path list and centrality bit pattern must equal the reference. The hook logs (item, worker, start order); evidence reports the number of distinct item->worker assignments and start orders seen per pool size. Thorough adds the same light workload under a ThreadSanitizer build (-Zsanitizer=thread -Zbuild-std) and 8 Miri runs (Tree Borrows, data-race detection, different scheduler seeds) of a 22-node workload. Non-trivial = every graph; distinct = distinct graph hashes.",
+        "assumptions": COMMON + ["hook: verif_hooks::par_item (first statement of each rayon work item): the closures hold no lock and touch no shared mutable state, so a delay there only produces schedules the program can already have", "schedules are sampled, not enumerated"],
+        "min_reach": {"any": ["reach:parallel-work-items-observed", "reach:two-or-more-distinct-schedules-for-a-pool-size", "reach:global-pool-run", "reach:nested-call", "reach:concurrent-readers"]},
+    },
+})
